@@ -18,10 +18,17 @@ PROP = dict(
     trusted_base=["kernel evaluation (`decide`) only for the concrete refutation witnesses and non-vacuity examples"],
     assumptions=[
         "sequential schedules of the snapshot writer only (checkpoint, writer finished, then sync); concurrent schedules are C10's",
-        "a trie file is modelled as its list of leaves (byte format: C11); file I/O succeeds",
+        "a trie file is modelled as its list of leaves; file I/O succeeds. That this abstraction is the content of the byte file is a "
+        "THEOREM now (C09.file_layer_is_C11, Proofs/TrieLink.lean, from C11's read_write / lookup_correct / first_n_prefix / "
+        "first_phrase_correct / entries_correct / writes_within_limits): for entries valid for the Rust types the bytes TrieBuilder::write "
+        "produces open, and the real reader's lookup_all_phrases (exact AND prefix), lookup_first_n_phrases, lookup_first_phrase return the "
+        "SAME LISTS as Trie.lookupAll / lookupFirstN on Trie.build es; entries() the same entries (permutation; per key the same order). "
+        "Pieces: comparator_is_C11 (leafCmp, updated to fix ddfe893, = C11's phraseLt), leaf_order_is_C11 (isort = sortLeaf: stable sorts "
+        "under a total preorder are unique, Proofs/StableSort.lean), builder_insert_is_C11 (insRepl = upsert on leaves with distinct texts), "
+        "the byte-level fuzzy walk visits keys in lexicographic order (reach_paths_sorted). Explicit hypotheses: ValidInput, Fits",
         "phrase texts do not begin with U+10FFFF (class MaxCodePointPhrase, refutation proved); frequencies fit u32, times u64",
-        "phrases under one key have the same number of characters (as many as the key has syllables), so that the leaf "
-        "comparator of TrieBuilder::write is a total preorder (only the order inside a leaf depends on it, no theorem does)",
+        "the leaf comparator of TrieBuilder::write is a total preorder on all leaves since repository fix ddfe893 (model follows it; "
+        "leaf_order_any_stable_sort: the model's leaf does not depend on the algorithm slice::sort_by runs)",
         "known findings F10 (UpdatePersisted) and F36 (FuzzyOverTombstoneOrPending) are excluded by exact decidable classes",
         "SQLite user dictionary: relational reading of its eight SQL statements (INSERT OR REPLACE, LEFT JOIN, ORDER BY with "
         "NULLs first and BINARY collation, rowid = largest id + 1) is trusted; its specification SMap differs from MapSpec by "
@@ -51,6 +58,7 @@ MANIFEST = dict(
          "key of a persisted phrase, so pending/tombstoned entries cannot be merged by key; repairing it changes the Trie "
          "interface, hence recorded, not fixed). Trusted: Lean kernel (propext, Classical.choice, Quot.sound), the harness, "
          "the compiled model driver, the relational reading of SQL. Not covered: SQLite v1 migration, concurrent writer "
-         "schedules (C10), byte format (C11), order of Trie::entries across keys.",
+         "schedules (C10), order of Trie::entries across keys (C11 proves the enumeration up to permutation of the keys). The byte format is no "
+         "longer an uncovered assumption: C09.file_layer_is_C11 / snapshot_file_is_C11 derive the List-Leaf file layer from C11's theorems.",
     technique="Lean 4 proof (refinement by invariant + induction over histories, permutation/pairwise reasoning on lists) over a hand-written executable model; sampled model/implementation correspondence with a reference-map oracle",
 )
